@@ -99,7 +99,7 @@ PROPS = {
                    "(always including 1) under the drawn interleavings and requires identical per-object commit sequences, final states and committed sets; variants: plain, det_id, local_state, "
                    "det_id+local_state+per_iter_alloc, det_parallel_break, det_id+fixed_neighborhood. C01 ledger and C02 stamps are checked in every execution.",
         level_note="Sampling over seeds. Loops below MinDelta=1280 items run as one window; the windowing code runs only in the thorough tier (probe windowed_execution).",
-        **tiers(5000, 150, 100000, 1800)),
+        **tiers(5000, 170, 60000, 2400, run_timeout_s=240)),
     "C08": dict(
         jobs=loop_jobs([3]),
         components=comp(), expected_probes=["attempts_aborted", "items_committed"],
